@@ -1,4 +1,5 @@
 // C05 harness, part 3: fcppt::array / fcppt::tuple / fcppt::record operations.
+// Compiled once per unit (-DC05_UNIT_ARRAYS, -DC05_UNIT_TUPLES, -DC05_UNIT_RECORDS).
 #include "c05_common.hpp"
 
 #include <fcppt/array/append.hpp>
@@ -37,6 +38,7 @@
 #include <fcppt/tuple/object_impl.hpp>
 #include <fcppt/tuple/push_back.hpp>
 
+#include <deque>
 #include <string>
 #include <utility>
 #include <vector>
@@ -67,6 +69,8 @@ arr1 mk_arr1() { return arr1{T(next_tok())}; }
 tup mk_tup() { return tup{T(next_tok()), T2(next_tok())}; }
 tup1 mk_tup1() { return tup1{T3(next_tok())}; }
 tup_tt mk_tup_tt() { return tup_tt{T(next_tok()), T(next_tok())}; }
+using tup3 = fcppt::tuple::object<T, T2, T3>;
+tup3 mk_tup3() { return tup3{T(next_tok()), T2(next_tok()), T3(next_tok())}; }
 rec_ab mk_rec_ab() { return rec_ab{label_a{} = T(next_tok()), label_b{} = T2(next_tok())}; }
 rec_c mk_rec_c() { return rec_c{label_c{} = T3(next_tok())}; }
 
@@ -95,13 +99,19 @@ void runL1(char const *op, bool keeps, std::string const &shape, Make const &mak
     not_instantiable(op, shape, std::string(1, C));
   else
   {
-    reset(op, shape, std::string(1, C));
-    auto a = make();
-    auto const la = labs_of(a);
-    begin(op, keeps, {desc(C, a)});
-    decltype(auto) r = call(as_cat<C>(a));
-    labels({la}, labs_of(r));
-    end(r, {ids_of(a)});
+    if (!reset(op, shape, std::string(1, C))) return;
+    guarded([&]
+    {
+      auto a = make();
+      auto const la = labs_of(a);
+      guarded([&]
+      {
+        begin(op, keeps, {desc(C, a)});
+        decltype(auto) r = call(as_cat<C>(a));
+        labels({la}, labs_of(r));
+        end(r, {ids_of(a)});
+      });
+    });
   }
 }
 template <char C1, char C2, typename Make1, typename Make2, typename Call>
@@ -113,18 +123,25 @@ void runL2(char const *op, bool keeps, std::string const &shape, Make1 const &ma
     not_instantiable(op, shape, std::string{C1, C2});
   else
   {
-    reset(op, shape, std::string{C1, C2});
-    auto a = make1();
-    auto b = make2();
-    auto const la = labs_of(a);
-    auto const lb = labs_of(b);
-    begin(op, keeps, {desc(C1, a), desc(C2, b)});
-    decltype(auto) r = call(as_cat<C1>(a), as_cat<C2>(b));
-    labels({la, lb}, labs_of(r));
-    end(r, {ids_of(a), ids_of(b)});
+    if (!reset(op, shape, std::string{C1, C2})) return;
+    guarded([&]
+    {
+      auto a = make1();
+      auto b = make2();
+      auto const la = labs_of(a);
+      auto const lb = labs_of(b);
+      guarded([&]
+      {
+        begin(op, keeps, {desc(C1, a), desc(C2, b)});
+        decltype(auto) r = call(as_cat<C1>(a), as_cat<C2>(b));
+        labels({la, lb}, labs_of(r));
+        end(r, {ids_of(a), ids_of(b)});
+      });
+    });
   }
 }
 
+#ifdef C05_UNIT_ARRAYS
 void arrays()
 {
   for_cats<'r', 'l', 'c'>([&](auto c)
@@ -134,6 +151,10 @@ void arrays()
     run1<C>("array::join", true, "array3", mk_arr3, [](auto &&a) C05_CALL(fcppt::array::join(C05_FWD(a))));
     run1<C>("tuple::from_array", true, "array3", mk_arr3, [](auto &&a) C05_CALL(fcppt::tuple::from_array(C05_FWD(a))));
     run1<C>("array::object(array)", true, "array3", mk_arr3, [](auto &&a) C05_CALL(arr3(C05_FWD(a))));
+    run1<C>("array::map", true, "array1", mk_arr1, [](auto &&a) C05_CALL(fcppt::array::map(C05_FWD(a), pass)));
+    run1<C>("array::map", true, "array2/by-value", mk_arr2, [](auto &&a) C05_CALL(fcppt::array::map(C05_FWD(a), pass_by_value)));
+    run1<C>("array::from_range", true, "deque:3", [] { return make_seq<std::deque<T>>(3); },
+            [](auto &&a) C05_CALL(fcppt::array::from_range<3>(C05_FWD(a))));
     // from_range: matching and non-matching sizes
     for (int n : {2, 3})
       run1<C>("array::from_range", n == 3, "vector:" + std::to_string(n), [n] { return make_seq<vec>(n); },
@@ -236,7 +257,9 @@ void arrays()
     });
   });
 }
+#endif
 
+#ifdef C05_UNIT_TUPLES
 void map_sources()
 {
   for_cats<'r', 'l', 'c'>([&](auto c)
@@ -263,9 +286,9 @@ void map_sources()
     });
   });
   // an mpl list as source: the elements are tags, the function makes the values
-  if (wanted("algorithm::map"))
+  if (wanted("algorithm::map") && reset("algorithm::map", "mpl::list->vector", ""))
   {
-    reset("algorithm::map", "mpl::list->vector", "");
+    guarded([]
     {
       begin("algorithm::map", false, {});
       int k = 0;
@@ -275,7 +298,7 @@ void map_sources()
         return T(100 + k++);
       });
       end(r, {});
-    }
+    });
   }
 }
 
@@ -300,6 +323,7 @@ void tuples()
   {
     constexpr char C = decltype(c)::value;
     run1<C>("tuple::map", true, "tuple2", mk_tup, [&](auto &&a) C05_CALL(fcppt::tuple::map(C05_FWD(a), to_var)));
+    run1<C>("tuple::map", true, "tuple<T,T2,T3>", mk_tup3, [&](auto &&a) C05_CALL(fcppt::tuple::map(C05_FWD(a), to_var)));
     run1<C>("tuple::map", true, "tuple<T,T>", mk_tup_tt, [&](auto &&a) C05_CALL(fcppt::tuple::map(C05_FWD(a), to_var)));
     // tuple::apply static_asserts std::is_same_v over the sizes of ALL tuples, which is only
     // well-formed for exactly two tuples: the unary form cannot be instantiated at all.
@@ -314,6 +338,8 @@ void tuples()
       constexpr char C2 = decltype(c2)::value;
       run2<C1, C2>("tuple::push_back", true, "tuple2+element", mk_tup, [] { return T3(next_tok()); },
                    [](auto &&a, auto &&b) C05_CALL(fcppt::tuple::push_back(C05_FWD(a), C05_FWD(b))));
+      run2<C1, C2>("tuple::push_back", true, "tuple<T,T2,T3>+T", mk_tup3, [] { return T(next_tok()); },
+                   [](auto &&a, auto &&b) C05_CALL(fcppt::tuple::push_back(C05_FWD(a), C05_FWD(b))));
       run2<C1, C2>("tuple::push_back", true, "tuple<T,T>+T", mk_tup_tt, [] { return T(next_tok()); },
                    [](auto &&a, auto &&b) C05_CALL(fcppt::tuple::push_back(C05_FWD(a), C05_FWD(b))));
       run2<C1, C2>("tuple::concat", true, "tuple2+tuple1", mk_tup, mk_tup1,
@@ -323,7 +349,9 @@ void tuples()
     });
   });
 }
+#endif
 
+#ifdef C05_UNIT_RECORDS
 void records()
 {
   for_cats<'r', 'l', 'c'>([&](auto c)
@@ -381,15 +409,22 @@ void records()
     });
   });
 }
+#endif
 }
 
 namespace c05
 {
-void drive_product()
+#ifdef C05_UNIT_ARRAYS
+void drive_arrays() { arrays(); }
+#endif
+#ifdef C05_UNIT_TUPLES
+void drive_tuples()
 {
-  arrays();
   map_sources();
   tuples();
-  records();
 }
+#endif
+#ifdef C05_UNIT_RECORDS
+void drive_records() { records(); }
+#endif
 }
